@@ -102,13 +102,16 @@ def run(ctx, deps=True):
 
     # ---- R3 sub-validators decide their rows
     used = {}
+    type_calls = {}
     for p in sm.paths:
         for ev in flat(p):
             if ev[0] == "call" and ev[2].startswith("repo:") and ev[3]:
                 a = ev[3][0]
                 kind = expected_args.get(a)
                 if kind:
-                    used.setdefault((ev[2][5:].split("[")[0], kind), ev[1])
+                    used.setdefault((ev[2][5:].split("[")[0].split("<")[0], kind), ev[1])
+                    if a == Sub(s, C("type")):
+                        type_calls.setdefault(ev[2][5:].split("[")[0].split("<")[0], ev)
             if ev[0] == "loop":
                 for bp in ev[4]:
                     for e2 in bp[2]:
@@ -128,6 +131,14 @@ def run(ctx, deps=True):
             detail = {"deviation": why}
         else:
             ok, detail = function_decides(eng, q, kind)
+            if not ok and kind == "str" and q in type_calls:
+                # a validator for "a string that is one of <permitted>" applied to the type field with
+                # the supported-types list: it decides two schema rows at once (str, type-supported)
+                ok2, detail2 = _decides_one_of(eng, q, type_calls[q])
+                if ok2:
+                    ok, detail = True, None
+                elif isinstance(detail, dict):
+                    detail = dict(detail, **{"as a one-of validator": detail2})
         ctx.count("R3.subvalidators")
         ctx.ob("R3", "decides|%s|%s" % (q, kind), st_.loc(), "%s %s the '%s' grammar" % (q, "decides exactly" if ok else "does NOT decide exactly", kind), ok, detail if not ok else None)
     ctx.floor("R3.subvalidators", 6)
@@ -138,6 +149,38 @@ def run(ctx, deps=True):
         from . import c13
 
         c13.run(ctx.sub("DEP-C13"))
+
+
+def _decides_one_of(eng, q, ev):
+    """q(x, ..., permitted, ...) accepts exactly the strings that are members of `permitted`, and
+    the call hands it the supported-types list for that parameter"""
+    from sa.terms import G
+
+    fi = eng.prog.funcs.get(q)
+    if fi is None:
+        return False, "function %s not found" % q
+    callee = eng.callee_index.get(ev[2])
+    order = list(callee[2]) if callee else fi.params()
+    sup = G("const:common.SUPPORTED_DELEGATING_METADATA_TYPES")
+    sup_lit = eng.const_literal("common.SUPPORTED_DELEGATING_METADATA_TYPES")
+    pn = [order[i] for i, a in enumerate(ev[3]) if i < len(order) and i > 0 and (a == sup or (sup_lit is not None and lit_const_values(a) is not None and lit_const_values(a) == lit_const_values(sup_lit)))]
+    if len(pn) != 1:
+        return False, "the supported-types list is not one of its arguments"
+    inline = frozenset(x for x, f in eng.prog.funcs.items() if f.mod.short == "common") - {q}
+    actual = [a for i, a in enumerate(ev[3]) if i < len(order) and order[i] == pn[0]][0]
+    smq = eng.summary(fi, None, inline, ((pn[0], actual),))
+    x, perm = P(smq.params[0]), actual
+    missing, refuted = KINDS["str"]
+    n_acc = 0
+    for p in smq.paths:
+        facts = set(p.facts) | (set(p.value.conds) if p.kind == "raise" else set())
+        if p.kind == "return":
+            n_acc += 1
+            if missing(State(facts=facts), x) or not any(f[0] == "in" and f[1] == x and (f[2] == perm or f[2] == sup_lit) for f in facts):
+                return False, "an accepting path does not establish 'a str that is in %s'" % pn[0]
+        elif not (refuted(facts, x) or any(f[0] == "notin" and f[1] == x and (f[2] == perm or f[2] == sup_lit) for f in facts)):
+            return False, "rejects for another reason: %s at %s" % (p.value.exc, p.value.chain[-1].loc())
+    return n_acc > 0, "no accepting path"
 
 
 def _cause(eng, p, x, m, s, sigs, expected_args):
